@@ -14,9 +14,9 @@ CHECKS = {}
 
 # monitor -> properties whose statement the monitor implements
 MON_OWNERS = {
-    "M-disjoint": ["C01", "C02"],
-    "M-inside": ["C01", "C02"],
-    "M-content": ["C01"],
+    "M-disjoint": ["C01", "C02", "C03"],
+    "M-inside": ["C01", "C02", "C03"],
+    "M-content": ["C01", "C03"],
     "M-freelist": ["C01", "C04"],
     "M-align": ["C02"],
     "M-null": ["C03", "C02"],
@@ -26,7 +26,7 @@ MON_OWNERS = {
     "M-nogrow": ["C04"],
     "M-upstream": ["C05"],
     "M-unwind": ["C06"],
-    "M-iter": ["C07"],
+    "M-iter": ["C07", "C01"],
     "M-own": ["C08"],
     "M-move": ["C12"],
     "M-leak": ["C15"],
@@ -34,6 +34,7 @@ MON_OWNERS = {
     "M-fillnew": ["C17"],
     "M-fillfree": ["C17"],
     "M-counters": ["C18"],
+    "M-own-unused": [],
     "M-maxima": ["C18"],
 }
 
@@ -47,8 +48,8 @@ def owns(prop, monitor, moves=False):
     return prop in MON_OWNERS.get(monitor, [])
 
 
-def J(h, cfg, args, name=None, need=(), moves=False):
-    return {"h": h, "cfg": cfg, "args": args, "name": name or f"{h}[{cfg}] {args}", "need": list(need), "moves": moves}
+def J(h, cfg, args, name=None, need=(), moves=False, own=()):
+    return {"h": h, "cfg": cfg, "args": args, "name": name or f"{h}[{cfg}] {args}", "need": list(need), "moves": moves, "own": list(own)}
 
 
 def run_explore_check(prop, tier, jobs, only=None, time_s=None, note="", assumptions=None):
@@ -56,7 +57,7 @@ def run_explore_check(prop, tier, jobs, only=None, time_s=None, note="", assumpt
     t0 = time.time()
     if only:
         jobs = [j for j in jobs if only in j["name"]]
-    budget = time_s or (150 if tier == "quick" else 1500)
+    budget = time_s or (100 if tier == "quick" else 1500)
     # build
     exes = {}
     for key in sorted({(j["h"], j["cfg"]) for j in jobs}):
@@ -66,7 +67,7 @@ def run_explore_check(prop, tier, jobs, only=None, time_s=None, note="", assumpt
         futs = {ex.submit(vlib.build_harness, f"harness/{h}.cpp", cfg): (h, cfg) for (h, cfg) in exes}
         for f in cf.as_completed(futs):
             exes[futs[f]] = f.result()  # BuildError propagates
-    per_job_time = max(20, int(budget - (time.time() - t0) - 10))
+    per_job_time = max(20, int(budget - (time.time() - t0) - 10)) if tier != "quick" else 35
     argv_jobs = []
     for j in jobs:
         argv = [exes[(j["h"], j["cfg"])]] + shlex.split(j["args"]) + ["--time_s", str(per_job_time), "--name", j["name"]]
@@ -105,7 +106,7 @@ def run_explore_check(prop, tier, jobs, only=None, time_s=None, note="", assumpt
                 continue
             rec = {"property": prop, "harness": j["h"], "cfg": j["cfg"], "args": j["args"], "monitor": v["monitor"], "tag": v["tag"],
                    "detail": v["detail"], "history": v["history"], "ops": v["ops"], "fingerprint": f"{j['h']}|{v['fingerprint']}"}
-            if owns(prop, v["monitor"], j["moves"]):
+            if owns(prop, v["monitor"], j["moves"]) or v["monitor"] in j.get("own", []):
                 kf = vlib.match_known(prop, rec["fingerprint"])
                 if kf:
                     known_lines.append(f"KNOWN-FINDING: property={prop} {kf['what']}")
@@ -162,6 +163,8 @@ def replay(prop, path):
     if rec.get("kind") == "command":
         r = subprocess.run(rec["argv"], cwd=vlib.VERIF)
         return r.returncode
+    if rec.get("kind") == "enum":
+        return replay_enum(rec)
     exe = vlib.build_harness(f"harness/{rec['harness']}.cpp", rec["cfg"])
     argv = [exe] + shlex.split(rec["args"]) + ["--replay", ",".join(str(o) for o in rec["ops"])]
     print("replaying:", " ".join(argv))
@@ -171,67 +174,376 @@ def replay(prop, path):
 
 
 # ------------------------------------------------------------------ exploration suites
+# Every suite is a list of SMALL configurations chosen to collide (tiny blocks so that growth, exhaustion,
+# reuse, array search across gaps, cache reuse ... happen inside the bound); each is explored to fixpoint.
+def _mv(extra):
+    return "--moves" in extra
+
+
+def _shrink(args, extra, tier):
+    """moves / upstream faults multiply the state space: use one live allocation less (two less in quick for moves)"""
+    import re
+    d = 0
+    if "--moves" in extra:
+        d += 2 if tier == "quick" else 1
+    if "--faults" in extra and "--faults 0" not in extra:
+        d += 1
+    if d == 0:
+        return args
+    args = re.sub(r"--L (\d+)", lambda m: f"--L {max(2, int(m.group(1)) - d)}", args)
+    if "--moves" in extra:
+        args = re.sub(r"--markers (\d+)", "--markers 1", args) + " --twin 0"
+    return args
+
+
 def pool_suite(tier, cfgs, extra="", fams=("member",), need=()):
-    """memory_pool configurations chosen to collide: tiny blocks (3-5 nodes) so that growth, exhaustion,
-    reuse and array search across gaps all happen inside the bound."""
     out = []
     q = tier == "quick"
     for cfg in cfgs:
         for fam in fams:
             if fam == "member":
                 shapes = [
-                    ("node", "constant", "--ns 16 --bs 80 --L 5 --B 3 --arrays 2", ("grew",)),
+                    ("node", "constant", "--ns 16 --bs 64 --L 4 --B 2 --arrays 2", ("grew",)),
                     ("node", "fixed", "--ns 16 --bs 96 --L 6 --B 2 --arrays 2", ("alloc_oom",)),
                     ("array", "constant", "--ns 16 --bs 80 --L 5 --B 3 --arrays 2", ("grew",)),
-                    ("array", "constant", "--ns 16 --bs 96 --L 4 --B 2 --arrays 3", ("grew",)),
+                    ("array", "constant", "--ns 16 --bs 96 --L 4 --B 2 --arrays 3 --objhi 1", ("grew",)),
                     ("array", "fixed", "--ns 16 --bs 112 --L 6 --B 2 --arrays 2,3", ("alloc_oom",)),
-                    ("small", "constant", "--ns 4 --bs 64 --L 6 --B 3", ("grew",)),
-                    ("small", "fixed", "--ns 1 --bs 48 --L 6 --B 2", ("alloc_oom",)),
+                    ("small", "fixed", "--ns 1 --bs 304 --L 3 --B 2 --bulk 254 --arena 4096 --snap 1", ("alloc_oom", "bulk_allocated")),
+                    ("small", "constant", "--ns 1 --bs 304 --L 2 --B 2 --bulk 254 --arena 4096 --snap 1 --max_states 120000", ("grew", "bulk_allocated")),
                 ]
                 if not q:
                     shapes += [
-                        ("node", "growing", "--ns 16 --bs 64 --L 6 --B 3 --arrays 2", ("grew",)),
-                        ("node", "constant", "--ns 8 --bs 56 --L 6 --B 3 --arrays 3", ("grew",)),
-                        ("node", "constant", "--ns 24 --bs 112 --L 5 --B 3 --arrays 2", ("grew",)),
+                        ("node", "constant", "--ns 16 --bs 80 --L 4 --B 2 --arrays 2 --objhi 1", ("grew",)),
+                        ("node", "growing", "--ns 16 --bs 64 --L 5 --B 3 --arrays 2", ("grew",)),
+                        ("node", "constant", "--ns 8 --bs 56 --L 5 --B 3 --arrays 3", ("grew",)),
+                        ("node", "constant", "--ns 24 --bs 112 --L 5 --B 2 --arrays 2", ("grew",)),
                         ("array", "growing", "--ns 16 --bs 64 --L 6 --B 3 --arrays 2", ("grew",)),
                         ("array", "constant", "--ns 8 --bs 64 --L 6 --B 3 --arrays 2,4", ("grew",)),
-                        ("array", "constant", "--ns 24 --bs 112 --L 5 --B 3 --arrays 2", ("grew",)),
+                        ("array", "constant", "--ns 24 --bs 112 --L 5 --B 3 --arrays 2 --objhi 1", ("grew",)),
                         ("array", "constant", "--ns 16 --bs 80 --L 7 --B 4 --arrays 2", ("grew",)),
-                        ("small", "growing", "--ns 3 --bs 48 --L 7 --B 3", ("grew",)),
-                        ("small", "constant", "--ns 8 --bs 64 --L 6 --B 4", ("grew",)),
+                        ("array", "constant", "--ns 16 --bs 80 --L 6 --B 3 --arrays 2,3", ("grew",)),
+                        ("small", "constant", "--ns 4 --bs 1088 --L 3 --B 2 --bulk 253 --arena 8192 --snap 1", ("grew", "bulk_allocated")),
+                        ("small", "growing", "--ns 1 --bs 304 --L 3 --B 3 --bulk 254 --arena 4096 --snap 1", ("grew", "bulk_allocated")),
+                        ("small", "fixed", "--ns 1 --bs 304 --L 4 --B 2 --bulk 253 --arena 4096 --snap 1", ("alloc_oom", "bulk_allocated")),
+                        ("small", "constant", "--ns 1 --bs 304 --L 3 --B 2 --bulk 253 --arena 4096 --snap 1", ("grew", "bulk_allocated")),
                     ]
             elif fam == "traits":
                 shapes = [
-                    ("node", "constant", "--fam traits --ns 16 --bs 80 --L 5 --B 3 --sizes 16,8 --tarrays 3x8,2x16", ("grew",)),
-                    ("array", "constant", "--fam traits --ns 16 --bs 80 --L 5 --B 3 --sizes 16,5 --tarrays 3x8,5x4", ("grew",)),
-                    ("small", "constant", "--fam traits --ns 4 --bs 64 --L 6 --B 3 --sizes 4,2", ("grew",)),
+                    ("node", "constant", "--fam traits --ns 16 --bs 64 --L 4 --B 2 --sizes 16,8 --tarrays 3x8", ("grew",)),
+                    ("array", "constant", "--fam traits --ns 16 --bs 80 --L 4 --B 2 --sizes 16,5 --tarrays 3x8,5x4", ("grew",)),
+                    ("small", "fixed", "--fam traits --ns 1 --bs 304 --L 3 --B 2 --sizes 1 --bulk 254 --arena 4096 --snap 1", ("alloc_oom",)),
                 ]
                 if not q:
                     shapes += [
+                        ("array", "constant", "--fam traits --ns 16 --bs 80 --L 5 --B 3 --sizes 16 --tarrays 3x8", ("grew",)),
                         ("array", "constant", "--fam traits --ns 24 --bs 112 --L 5 --B 3 --sizes 24,9 --tarrays 5x9,2x24", ("grew",)),
-                        ("node", "growing", "--fam traits --ns 8 --bs 56 --L 6 --B 3 --sizes 8,3 --tarrays 3x5", ("grew",)),
+                        ("node", "growing", "--fam traits --ns 8 --bs 56 --L 5 --B 3 --sizes 8,3 --tarrays 3x5", ("grew",)),
                     ]
             else:  # composable
                 shapes = [
                     ("node", "fixed", "--fam compose --ns 16 --bs 96 --L 6 --B 2 --sizes 16,8 --tarrays 3x8 --tryrel 1", ("try_returned_null",)),
                     ("array", "fixed", "--fam compose --ns 16 --bs 112 --L 6 --B 2 --sizes 16 --tarrays 3x8,2x16 --tryrel 1", ("try_returned_null",)),
-                    ("small", "fixed", "--fam compose --ns 4 --bs 48 --L 6 --B 2 --sizes 4,1 --tryrel 1", ("try_returned_null",)),
+                    ("small", "fixed", "--fam compose --ns 1 --bs 304 --L 3 --B 2 --sizes 1 --bulk 254 --arena 4096 --snap 1 --tryrel 1", ("try_returned_null",)),
                 ]
             for t, src, args, nd in shapes:
-                a = f"--type {t} --src {src} {args} --arena 1024 {extra}".strip()
-                out.append(J("h_pool", cfg, a, name=f"pool/{t}/{src}[{cfg}] {args} {extra}".strip(), need=tuple(nd) + tuple(need),
-                             moves="--moves" in extra))
+                if "--arena" not in args:
+                    args += " --arena 1024"
+                args = _shrink(args, extra, tier)
+                a = f"--type {t} --src {src} {args} {extra}".strip()
+                out.append(J("h_pool", cfg, a, name=f"pool/{t}/{src}[{cfg}] {args} {extra}".strip(), need=tuple(nd) + tuple(need), moves=_mv(extra)))
     return out
 
 
+def coll_suite(tier, cfgs, extra="", fams=("member",), need=()):
+    out = []
+    q = tier == "quick"
+    for cfg in cfgs:
+        for fam in fams:
+            f = "" if fam == "member" else ("--fam traits" if fam == "traits" else "--fam compose --tryrel 1")
+            shapes = [
+                ("array", "log2", "fixed", "--maxns 32 --bs 288 --sizes 8,16,20 --arrays 2x16,3x8 --L 4 --B 2", ("reserved_from_arena",)),
+                ("array", "identity", "constant", "--maxns 12 --bs 416 --sizes 8,12 --arrays 2x12 --L 3 --B 2", ("reserved_from_arena", "grew")),
+                ("array", "log2", "constant", "--maxns 16 --bs 192 --sizes 8 --arrays 3x5,19x5 --L 3 --B 2", ("reserved_from_arena", "grew")),
+                ("node", "log2", "fixed", "--maxns 16 --bs 224 --sizes 16 --arrays 2x16 --L 3 --B 2 --max_states 300000", ("reserved_from_arena",)),
+                ("small", "identity", "constant", "--maxns 4 --bs 2000 --sizes 1,4 --L 3 --B 2 --arena 8192", ("reserved_from_arena",)),
+            ]
+            if not q:
+                shapes += [
+                    ("array", "log2", "constant", "--maxns 32 --bs 288 --sizes 8,16,20 --arrays 2x16 --L 4 --B 2", ("grew",)),
+                    ("array", "log2", "growing", "--maxns 16 --bs 192 --sizes 8,16 --arrays 3x8,9x5 --L 4 --B 2", ("grew",)),
+                    ("array", "log2", "fixed", "--maxns 32 --bs 288 --sizes 8,16,20 --arrays 2x16,3x8 --L 5 --B 2 --objhi 1", ("reserved_from_arena",)),
+                    ("array", "identity", "constant", "--maxns 12 --bs 416 --sizes 8,12 --arrays 2x12,5x9 --L 4 --B 2", ("reserved_from_arena",)),
+                    ("node", "log2", "constant", "--maxns 16 --bs 192 --sizes 8 --arrays 3x5,19x5 --L 2 --B 2", ("grew",)),
+                    ("node", "identity", "fixed", "--maxns 12 --bs 416 --sizes 8,12 --arrays 2x12 --L 3 --B 2", ("reserved_from_arena",)),
+                    ("small", "log2", "constant", "--maxns 4 --bs 2000 --sizes 1,3,4 --L 4 --B 2 --arena 8192", ("reserved_from_arena",)),
+                ]
+            for t, bk, src, args, nd in shapes:
+                if fam == "compose" and src != "fixed":
+                    continue
+                if "--arena" not in args:
+                    args += " --arena 2048"
+                args = _shrink(args, extra, tier)
+                a = f"--type {t} --buckets {bk} --src {src} {f} {args} {extra}".strip()
+                out.append(J("h_coll", cfg, a, name=f"coll/{t}/{bk}/{src}[{cfg}] {f} {args} {extra}".strip(), need=tuple(nd) + tuple(need), moves=_mv(extra)))
+    return out
+
+
+def stack_suite(tier, cfgs, extra="", fams=("member",), need=()):
+    out = []
+    q = tier == "quick"
+    for cfg in cfgs:
+        for fam in fams:
+            f = "" if fam == "member" else ("--fam traits" if fam == "traits" else "--fam compose --tryrel 1")
+            shapes = [
+                ("growing", "--bs 64 --reqs 8x8,24x1 --L 3 --B 3 --markers 2", ("unwound_across_blocks", "reused_cached_block")),
+                ("constant", "--bs 64 --reqs 40x1,8x8 --L 4 --B 4 --markers 2", ("unwound_across_blocks",)),
+                ("constant", "--bs 64 --reqs 100x1,13x16,3x1 --L 4 --B 3 --markers 1", ("alloc_bad_size",)),
+                ("fixed", "--bs 96 --reqs 13x1,8x16,3x32 --L 5 --B 2 --markers 2", ("alloc_oom",)),
+            ]
+            if not q:
+                shapes += [
+                    ("growing", "--bs 64 --reqs 8x8,24x1,3x1 --L 4 --B 3 --markers 2", ("unwound_across_blocks",)),
+                    ("growing", "--bs 80 --reqs 13x16,40x1 --L 4 --B 3 --markers 3", ("unwound_across_blocks",)),
+                    ("constant", "--bs 64 --reqs 40x1,8x8,1x1 --L 5 --B 4 --markers 3", ("unwound_across_blocks",)),
+                    ("constant", "--bs 96 --reqs 24x32,8x8 --L 4 --B 3 --markers 2 --objhi 1", ("unwound_across_blocks",)),
+                    ("fixed", "--bs 128 --reqs 13x1,8x16,3x64 --L 6 --B 2 --markers 2", ("alloc_oom",)),
+                ]
+            for src, args, nd in shapes:
+                args = _shrink(args, extra, tier).replace("--twin 0", "--twin 0" if fam == "member" else "")
+                a = f"--src {src} {f} {args} --arena 1024 {extra}".strip()
+                if fam != "member":
+                    nd = tuple(x for x in nd if x not in ("alloc_bad_size",))
+                out.append(J("h_stack", cfg, a, name=f"stack/{src}[{cfg}] {f} {args} {extra}".strip(), need=tuple(nd) + tuple(need), moves=_mv(extra)))
+    return out
+
+
+def iter_suite(tier, cfgs, extra="", need=()):
+    out = []
+    q = tier == "quick"
+    for cfg in cfgs:
+        if q:
+            combos = [(1, 37), (2, 64), (2, 65), (3, 100), (3, 101), (3, 104), (4, 99), (5, 128), (5, 131), (3, 1025)]
+        else:
+            combos = [(n, bs) for n in (1, 2, 3, 4, 5) for bs in list(range(60, 60 + 4 * n + 3)) + [1025, 1024 + n + 1]]
+        for n, bs in combos:
+            region = bs // n
+            big = max(region - 5, 9)
+            reqs = f"{big}x1,8x8" + (",3x16" if n <= 3 else "")
+            args = _shrink(f"--N {n} --bs {bs} --reqs {reqs} --L {3 if n <= 3 else 2} --arena 2048 --tries 1", extra, tier).replace(" --twin 0", "")
+            out.append(J("h_iter", cfg, f"{args} {extra}".strip(), name=f"iter<{n}>/{bs}[{cfg}] {extra}".strip(), need=("alloc_oom",) + tuple(need), moves=_mv(extra)))
+    return out
+
+
+def arena_suite(tier, cfgs, extra="", need=()):
+    out = []
+    q = tier == "quick"
+    for cfg in cfgs:
+        for src in ("constant", "fixed", "static") + (() if q else ("growing",)):
+            for cached in (1, 0):
+                L = 4 if (q or src == "growing") else 5
+                B = 3 if src == "growing" else 4
+                args = _shrink(f"--src {src} --cached {cached} --bs 64 --storage 192 --L {L} --B {B} --arena 2048", extra, tier).replace(" --twin 0", "")
+                nd = ("reused_cached_block",) if cached else ("acquired_fresh_block",)
+                out.append(J("h_arena", cfg, f"{args} {extra}".strip(), name=f"arena/{src}/{'cached' if cached else 'uncached'}[{cfg}] {extra}".strip(),
+                             need=nd + tuple(need), moves=_mv(extra)))
+    return out
+
+
+def cfgs_for(tier, quick=("rwd", "dbg"), thorough=("rel", "rwd", "dbg")):
+    return list(quick if tier == "quick" else thorough)
+
+
+NOTE_BFS = ("explicit-state breadth-first search over operation histories of the REAL allocator objects (state = raw bytes of the object(s), "
+            "the deterministic first-fit upstream arena and the shadow model; every state re-built from scratch and keyed again: canon-on-replay); ")
+
+
+def check_C01(prop, tier, only):
+    c = cfgs_for(tier)
+    jobs = (pool_suite(tier, c, extra="--tries 1", fams=("member", "traits")) + coll_suite(tier, c, extra="--tries 1", fams=("member",))
+            + stack_suite(tier, c, extra="--tries 1") + iter_suite(tier, c) + arena_suite(tier, c[:1]))
+    return run_explore_check(prop, tier, jobs, only, note=NOTE_BFS +
+                             "M-disjoint / M-inside / M-content on every transition: each returned range is disjoint from all live ranges, lies inside an "
+                             "outstanding upstream block behind the arena header, and every live byte keeps the user pattern after every operation; "
+                             "M-freelist: no free-list node is part of a live allocation")
+
+
+def check_C03(prop, tier, only):
+    c = cfgs_for(tier)
+    x = "--tries 1 --faults 1"
+    jobs = (pool_suite(tier, c, extra=x, fams=("member", "traits", "compose")) + coll_suite(tier, c, extra=x, fams=("member", "compose"))
+            + stack_suite(tier, c, extra=x, fams=("member", "compose")) + iter_suite(tier, c, extra="--faults 0")
+            + arena_suite(tier, c[:1], extra="--faults 1"))
+    return run_explore_check(prop, tier, jobs, only, note=NOTE_BFS +
+                             "alphabet includes try_ variants, requests that exhaust fixed sources, an oversize request, and 'fail the next upstream call' "
+                             "(deviation bound 1) at every reachable upstream call position; M-null/M-fail/M-try: throwing calls never return null, "
+                             "exceptions are the upstream's or of the library's families with the handler called first, try_ never throws/grows; the "
+                             "exploration continues after every failure so earlier allocations and later requests are checked by the C01 monitors")
+
+
 def check_C04(prop, tier, only):
-    cfgs = ["rwd", "dbg"] if tier == "quick" else ["rel", "rwd", "dbg"]
-    jobs = pool_suite(tier, cfgs, extra="--tries 1", fams=("member", "traits"))
-    return run_explore_check(prop, tier, jobs, only,
-                             note="BFS over all histories of allocate/release (nodes, arrays, try_ variants) on real memory_pool objects; "
-                                  "M-capacity: free nodes + nodes held by live allocations never decreases and is constant without growth; "
-                                  "M-nogrow: a single node request never grows while the list holds a node; "
-                                  "M-freelist: nodes reachable from the list head == capacity counter, all inside owned blocks, none live")
+    c = cfgs_for(tier)
+    jobs = pool_suite(tier, c, extra="--tries 1", fams=("member", "traits")) + coll_suite(tier, c, extra="--tries 1", fams=("member", "traits"))
+    return run_explore_check(prop, tier, jobs, only, note=NOTE_BFS +
+                             "M-capacity: free nodes + nodes held by live allocations never decreases and is constant without growth; "
+                             "M-nogrow: a single node request never grows while its list holds a node; "
+                             "M-freelist: nodes reachable from the list head == capacity counter, all inside owned blocks, none live")
 
 
+def check_C05(prop, tier, only):
+    c = cfgs_for(tier)
+    jobs = (arena_suite(tier, c, extra="--faults 1 --moves 2") + arena_suite(tier, c, extra="--faults 2")
+            + pool_suite(tier, c[:2], extra="--faults 1") + coll_suite(tier, c[:1], extra="--faults 1") + stack_suite(tier, c[:2], extra="--faults 1")
+            + iter_suite(tier, c[:1], extra="--moves 2"))
+    return run_explore_check(prop, tier, jobs, only, note=NOTE_BFS +
+                             "memory_arena<cached|uncached> driven directly over growing/constant/fixed/static sources wrapped in a logging BlockAllocator, plus "
+                             "pools/collections/stacks/iteration allocators over the logging raw upstream; M-upstream: every block returned exactly once with the "
+                             "same address/size/parameters, most recent outstanding block first (LIFO), cache used before the source, nothing outstanding after "
+                             "destruction, with an upstream failure armed before every call position")
+
+
+def check_C06(prop, tier, only):
+    c = cfgs_for(tier)
+    jobs = stack_suite(tier, c, extra="--tries 1") + stack_suite(tier, c[:1], extra="--moves 2")
+    return run_explore_check(prop, tier, jobs, only, note=NOTE_BFS +
+                             "memory_stack with mark / unwind(j) for every valid nested j / shrink_to_fit / move; M-unwind: capacity restored, top()==marker, "
+                             "markers totally ordered with consistent operators, unwind never touches the upstream, shrink_to_fit empties the cache, and a twin "
+                             "comparison: probe requests on the unwound object return the same addresses and capacities as on a snapshot of the object taken when "
+                             "the marker was created (skipped after shrink_to_fit)")
+
+
+def check_C07(prop, tier, only):
+    c = cfgs_for(tier, thorough=("rel", "rwd", "dbg", "dbg16"))
+    jobs = iter_suite(tier, c)
+    for j in jobs:
+        j["own"] = ["M-disjoint", "M-content", "M-inside"]
+    return run_explore_check(prop, tier, jobs, only, note=NOTE_BFS +
+                             "iteration_allocator<N>, N=1..5, block sizes covering every residue mod N (and 1025), allocate/try_allocate/next_iteration; "
+                             "M-iter: regions disjoint and inside the block at construction, allocations inside the current region, memory stays in the shadow heap "
+                             "(content-checked after every operation) until next_iteration() was called N times, full region capacity after each switch")
+
+
+def check_C12(prop, tier, only):
+    c = cfgs_for(tier)
+    x = "--moves 2"
+    jobs = (pool_suite(tier, c, extra=x, fams=("member",)) + coll_suite(tier, c, extra=x) + stack_suite(tier, c, extra=x)
+            + iter_suite(tier, c[:2], extra=x) + arena_suite(tier, c, extra=x))
+    return run_explore_check(prop, tier, jobs, only, note=NOTE_BFS +
+                             "two object slots; alphabet adds construct / move-construct / move-assign (onto empty, non-empty and moved-from targets) / swap / "
+                             "destroy (also of moved-from objects) at every reachable state, up to 2 moves per history; all memory-safety and upstream monitors "
+                             "continue across the move with ownership transferred in the model; the storage of destroyed objects must stay untouched")
+
+
+def check_C15(prop, tier, only):
+    c = [x for x in cfgs_for(tier) if x != "rel"] + (["rel"] if tier != "quick" else [])
+    jobs = (pool_suite(tier, c, fams=("traits",)) + pool_suite(tier, c[:1], extra="--moves 2", fams=("traits",)) + coll_suite(tier, c, fams=("traits",))
+            + stack_suite(tier, c, fams=("traits",)) + stack_suite(tier, c[:1], extra="--moves 2", fams=("traits",)))
+    return run_explore_check(prop, tier, jobs, only, note=NOTE_BFS +
+                             "allocator_traits family only; ledger net = sum of traits allocations - deallocations per object identity as moved; M-leak: on "
+                             "destruction exactly one handler call with the exact net and the allocator's address if net != 0, none if 0 (never in rel)")
+
+
+def check_C18_explore_jobs(tier):
+    c = cfgs_for(tier)
+    return (pool_suite(tier, c, extra="--tries 1", fams=("member", "traits")) + coll_suite(tier, c, fams=("member", "traits"))
+            + stack_suite(tier, c, extra="--tries 1") + iter_suite(tier, c[:2]) + arena_suite(tier, c[:1]))
+
+
+CHECKS["C01"] = check_C01
+CHECKS["C03"] = check_C03
 CHECKS["C04"] = check_C04
+CHECKS["C05"] = check_C05
+CHECKS["C06"] = check_C06
+CHECKS["C07"] = check_C07
+CHECKS["C12"] = check_C12
+CHECKS["C15"] = check_C15
+
+
+# ------------------------------------------------------------------ enumeration-style checks
+def run_enum_check(prop, tier, jobs, level="exploration", only=None, note="", assumptions=None, budget=None,
+                   harness_kw=None):
+    """jobs: list of J(); each harness run enumerates a finite input/fault domain and writes
+    {"evaluations","distinct_nontrivial","rule","samples","exhaustive","excluded","violations":[{"tag","detail","input"}]}.
+    A violation's "input" (any JSON value) is what `--replay '<json>'` of the same harness takes."""
+    t0 = time.time()
+    if only:
+        jobs = [j for j in jobs if only in j["name"]]
+    budget = budget or (150 if tier == "quick" else 1500)
+    import concurrent.futures as cf
+    exes = {}
+    keys = sorted({(j["h"], j["cfg"]) for j in jobs})
+    with cf.ThreadPoolExecutor(8) as ex:
+        futs = {ex.submit(vlib.build_harness, f"harness/{h}.cpp", cfg, **(harness_kw or {})): (h, cfg) for (h, cfg) in keys}
+        for f in cf.as_completed(futs):
+            exes[futs[f]] = f.result()
+    argv_jobs = [(j["name"], [exes[(j["h"], j["cfg"])]] + shlex.split(j["args"]) + ["--tier", tier]) for j in jobs]
+    results = vlib.run_jobs(argv_jobs, timeout=budget + 300)
+    ev = dn = excl = 0
+    rules, samples, errors, viol, known = [], [], [], [], []
+    exhaustive = True
+    per = []
+    for j, (label, rc, js, txt) in zip(jobs, results):
+        if js is None:
+            errors.append(f"{label}: harness produced no result (rc={rc}): {txt[-400:]}")
+            continue
+        ev += js.get("evaluations", 0)
+        dn += js.get("distinct_nontrivial", 0)
+        excl += js.get("excluded", 0)
+        exhaustive = exhaustive and bool(js.get("exhaustive", False))
+        if js.get("rule") and js["rule"] not in rules:
+            rules.append(js["rule"])
+        for s_ in js.get("samples", [])[:3]:
+            if len(samples) < 12:
+                samples.append({"config": label, "case": s_})
+        per.append({"name": label, "evaluations": js.get("evaluations", 0), "distinct_nontrivial": js.get("distinct_nontrivial", 0),
+                    "exhaustive": js.get("exhaustive", False), "wall_s": js.get("wall_s", 0), "extra": js.get("extra", {})})
+        for e in js.get("harness_errors", []):
+            errors.append(f"{label}: {e}")
+        seen_fp = set()
+        for v in js.get("violations", []):
+            fp = f"{j['h']}|{v['tag']}"
+            rec = {"property": prop, "kind": "enum", "harness": j["h"], "cfg": j["cfg"], "args": j["args"], "tag": v["tag"],
+                   "detail": v["detail"], "input": v.get("input"), "fingerprint": fp}
+            kf = vlib.match_known(prop, fp)
+            if kf:
+                known.append(f"KNOWN-FINDING: property={prop} {kf['what']}")
+            elif (fp, j["cfg"]) not in seen_fp:
+                seen_fp.add((fp, j["cfg"]))
+                viol.append((vlib.write_replay(prop, rec), rec))
+    wall = time.time() - t0
+    cov = {"evaluations": ev, "distinct_nontrivial": dn, "rule": " || ".join(rules) or note, "samples": samples or [{"note": "none"}],
+           "exhaustive": bool(exhaustive and not errors), "excluded_by_rule": excl, "per_configuration": per,
+           "harness_errors": errors[:20], "known_findings_hit": sorted(set(known)), "explanation": note}
+    vlib.write_evidence(prop, tier, level, cov, wall, len(viol), assumptions=assumptions)
+    for l in sorted(set(known)):
+        print(l)
+    for e in errors[:10]:
+        log("HARNESS ERROR: " + e)
+    log(f"{prop} {tier}: {len(per)} runs, {ev} evaluations, {dn} distinct non-trivial, {len(viol)} violation(s), {wall:.1f}s")
+    if viol:
+        for rp, rec in viol:
+            print(f"VIOLATION property={prop} replay={rp}")
+            log(f"  [{rec['tag']}] {rec['detail']}\n  config: {rec['harness']}[{rec['cfg']}] {rec['args']}\n  input: {json.dumps(rec['input'])[:400]}")
+        return 1
+    return 3 if errors else 0
+
+
+def replay_enum(rec):
+    exe = vlib.build_harness(f"harness/{rec['harness']}.cpp", rec["cfg"])
+    argv = [exe] + shlex.split(rec["args"]) + ["--replay", json.dumps(rec["input"])]
+    print("replaying:", " ".join(shlex.quote(a) for a in argv))
+    print("expected :", rec["tag"], "-", rec["detail"])
+    return subprocess.run(argv).returncode
+
+
+# ------------------------------------------------------------------ per-property modules
+def _load_modules():
+    import glob
+    import importlib
+    here = os.path.dirname(os.path.abspath(__file__))
+    for f in sorted(glob.glob(os.path.join(here, "check_C*.py"))):
+        m = importlib.import_module(os.path.basename(f)[:-3])
+        if hasattr(m, "register"):
+            m.register(CHECKS)
+
+
+_load_modules()
